@@ -22,12 +22,30 @@ STRATEGIES = ['sorted', 'timesorted', 'max', 'bucketmax', 'naive', 'random']
 T0 = 1000000.0
 
 _derived_cache = {}
+_placed = {}
+DERIVED = ('CACHE_SIZE_HARD_MAX', 'CACHE_SIZE_LOW_WATERMARK')
 
 
-def derived_limits(max_cache_size, flow):
+def apply_limits(b, max_cache_size, flow, layout='plain'):
+  """Put the settings object in the state the daemon's start-up leaves it in: MAX_CACHE_SIZE as
+  configured, the two derived limits exactly where (attribute / item) and if postOptions put them."""
+  m, hard, low = derived_limits(max_cache_size, flow, layout)
+  placed = _placed[(max_cache_size, bool(flow), layout)]
+  b.settings['MAX_CACHE_SIZE'] = m
+  for k in DERIVED:
+    b.settings.pop(k, None)
+    b.settings.__dict__.pop(k, None)
+  for k, v in placed['attrs'].items():
+    b.settings.__dict__[k] = v
+  for k, v in placed['items'].items():
+    b.settings[k] = v
+  return m, hard, low
+
+
+def derived_limits(max_cache_size, flow, layout='plain'):
   """CACHE_SIZE_HARD_MAX / CACHE_SIZE_LOW_WATERMARK as carbon's own
   CarbonCacheOptions.postOptions computes them (runs the real code once per config)."""
-  key = (max_cache_size, bool(flow))
+  key = (max_cache_size, bool(flow), layout)
   if key in _derived_cache:
     return _derived_cache[key]
   b = env.bootstrap()
@@ -39,9 +57,19 @@ def derived_limits(max_cache_size, flow):
   saved_db = b.state.database
   root = os.path.join(b.tmp, 'postopt')
   os.makedirs(os.path.join(root, 'conf'), exist_ok=True)
+  size = 'inf' if max_cache_size is None else max_cache_size
+  other_size = 1000003 if max_cache_size is None else max_cache_size * 7 + 3
+  # where the operator wrote the two options: the program section, or (overriding it) the section of instance "a"
+  main = {'plain': (size, bool(flow)), 'inst': (other_size, not flow), 'inst-flow': (size, not flow),
+          'inst-size': (other_size, bool(flow))}[layout]
+  inst = {'plain': None, 'inst': 'MAX_CACHE_SIZE = %s\nUSE_FLOW_CONTROL = %s\n' % (size, bool(flow)),
+          'inst-flow': 'USE_FLOW_CONTROL = %s\n' % bool(flow), 'inst-size': 'MAX_CACHE_SIZE = %s\n' % size}[layout]
   with open(os.path.join(root, 'conf', 'carbon.conf'), 'w') as f:
     f.write('[cache]\nDATABASE = verifmem\nMAX_CACHE_SIZE = %s\nUSE_FLOW_CONTROL = %s\n'
-            'ENABLE_LOGROTATION = False\n' % ('inf' if max_cache_size is None else max_cache_size, bool(flow)))
+            'ENABLE_LOGROTATION = False\n' % main)
+    f.write('[cache:b]\nMAX_CACHE_SIZE = 77\nUSE_FLOW_CONTROL = %s\n' % (not flow))
+    if inst is not None:
+      f.write('[cache:a]\n' + inst)
   with open(os.path.join(root, 'conf', 'storage-schemas.conf'), 'w') as f:
     f.write('[all]\npattern = .*\nretentions = 60:1440\n')
   from . import memdb  # registers the 'verifmem' plugin
@@ -54,14 +82,23 @@ def derived_limits(max_cache_size, flow):
   opts.parent = parent
   opts['config'] = os.path.join(root, 'conf', 'carbon.conf')
   opts['debug'] = True
+  if inst is not None:
+    opts['instance'] = 'a'
   old_env = os.environ.get('GRAPHITE_ROOT')
   os.environ['GRAPHITE_ROOT'] = root
+  # the daemon has these two only where postOptions puts them: drop the harness defaults first
+  for k in DERIVED:
+    b.settings.pop(k, None)
+    b.settings.__dict__.pop(k, None)
   try:
     with contextlib.redirect_stdout(io.StringIO()):
       opts.postOptions()
-    hard = b.settings.CACHE_SIZE_HARD_MAX
-    low = b.settings.CACHE_SIZE_LOW_WATERMARK
+    placed = {'attrs': dict((k, b.settings.__dict__[k]) for k in DERIVED if k in b.settings.__dict__),
+              'items': dict((k, dict.__getitem__(b.settings, k)) for k in DERIVED if dict.__contains__(b.settings, k))}
+    hard = placed['attrs'].get(DERIVED[0], placed['items'].get(DERIVED[0]))
+    low = placed['attrs'].get(DERIVED[1], placed['items'].get(DERIVED[1]))
     mcs = b.settings.MAX_CACHE_SIZE
+    _placed[key] = placed
   except SystemExit as e:
     raise HarnessError('postOptions exited: %r' % (e,))
   finally:
@@ -111,11 +148,7 @@ def run_case(case, on_point=None, trace_protocols=True, extra_trace=(), post=Non
   overrides = {'CACHE_WRITE_STRATEGY': strategy, 'MIN_TIMESTAMP_LAG': case.get('lag', 0),
                'USE_FLOW_CONTROL': flow, 'LOG_CACHE_HITS': False}
   env.reset(**overrides)
-  if mcs is not None:
-    m, hard, low = derived_limits(mcs, flow)
-    b.settings['MAX_CACHE_SIZE'] = m
-    b.settings['CACHE_SIZE_HARD_MAX'] = hard
-    b.settings['CACHE_SIZE_LOW_WATERMARK'] = low
+  apply_limits(b, mcs, flow, case.get('conf_layout', 'plain'))
   cachemod = b.cache
   files = [cachemod.__file__, b.events.__file__]
   if trace_protocols:
